@@ -215,16 +215,24 @@ fn process_proactive_filling(core: &mut Core, mapping: &mut WorkerTaskMapping) {
             continue;
         }
         for worker in workers {
-            let tasks = queue.take_tasks_for_prefill(prefill_size);
-            for task_id in &tasks {
-                log::debug!("Prefiling task={task_id} to worker={}", worker.id);
+            let mut tasks = queue.take_tasks_for_prefill(prefill_size);
+            tasks.retain(|task_id| {
                 let task = task_map.get_task_mut(*task_id);
+                if task.is_retracting() {
+                    // The previous worker has not given the task back yet, so it cannot be
+                    // prefilled to another worker. The task stays in the ready queue,
+                    // where a regular assignment handles it via a redirect.
+                    queue.move_prefilled_task_to_ready(*task_id);
+                    return false;
+                }
+                log::debug!("Prefiling task={task_id} to worker={}", worker.id);
                 assert!(task.is_waiting());
                 task.state = TaskRuntimeState::Prefilled {
                     worker_id: worker.id,
                 };
                 worker.insert_prefill_task(*task_id);
-            }
+                true
+            });
             mapping
                 .workers
                 .entry(worker.id)
